@@ -232,6 +232,85 @@ def probe_orphan_sibling(seed, n):
     return cases, fails
 
 
+def probe_raising_operand(seed, n):
+    """a name inside a guard *expression* raises while it is evaluated (`cond="priority > 3"`, `priority` doing
+    `int(None)`): the exception reaches the caller as it is, the state is the source's, nothing of the transition ran —
+    whatever the operator around the name and whatever the exception's type"""
+    import asyncio
+    import random
+    import warnings
+    from statemachine import State, StateMachine
+
+    class Custom(Exception):
+        pass
+    rng = random.Random(f"{seed}:C04:operand")
+    EXC = [TypeError, ValueError, KeyError, AttributeError, ZeroDivisionError, Custom, RuntimeError, LookupError]
+    SHAPES = ["bad > 3", "bad >= fine", "fine < bad", "bad == 1", "bad != fine", "not bad", "bad and fine", "fine and bad",
+              "bad or fine", "not fine or bad", "fine and not bad", "bad", "fine == 7 and bad <= 2", "1 < bad < 9"]
+    fails, cases = [], 0
+    for i in range(n):
+        exc = rng.choice(EXC)
+        shape = rng.choice(SHAPES)
+        group = rng.choice(["cond", "unless"])
+        is_async = rng.random() < 0.4
+        how = rng.choice(["method", "property"])
+        queued = rng.random() < 0.3          # the event is sent from a callback of another event
+        log = []
+        ns = {}
+
+        armed = []
+
+        def bad(self, armed=armed, exc=exc, log=log):
+            if not armed:            # (a property is read once while the machine is constructed)
+                return 5
+            log.append("bad")
+            raise exc("operand")
+        ns["bad"] = property(bad) if how == "property" else bad
+        ns["fine"] = 7
+        a, b, c = State("a", initial=True), State("b"), State("c")
+        ns.update(a=a, b=b, c=c)
+        ns["go"] = a.to(b, **{group: shape}) | a.to(c)
+        ns["start"] = a.to.itself(internal=True, after="go") if queued else a.to.itself(internal=True)
+        ns["on_enter_b"] = lambda self: log.append("enter_b")
+        ns["on_enter_c"] = lambda self: log.append("enter_c")
+        ns["on_exit_a"] = lambda self: log.append("exit_a")
+        if is_async:
+            async def after_start(self):
+                return None
+            ns["after_start"] = after_start
+        try:
+            with warnings.catch_warnings():
+                warnings.simplefilter("ignore")
+                cls = type(StateMachine)("Op", (StateMachine,), ns)
+                sm = cls()
+                if is_async:
+                    sm.activate_initial_state()
+        except Exception as e:  # noqa: BLE001
+            fails.append(f"[{shape!r} {group} {how}] construction raised {type(e).__name__}: {e}")
+            continue
+        cases += 1
+        got = None
+        armed.append(1)
+        try:
+            with warnings.catch_warnings():
+                warnings.simplefilter("ignore")
+                sm.send("start" if queued else "go")
+        except BaseException as e:  # noqa: BLE001
+            got = e
+        where = f"[{shape!r} as {group}, operand a {how} raising {exc.__name__}, {'async' if is_async else 'sync'}" \
+                f"{', queued from a callback' if queued else ''}]"
+        if "bad" not in log:
+            continue        # (short-circuited before the operand: nothing to say)
+        if not isinstance(got, exc) or type(got) is not exc:
+            fails.append(f"{where} the operand raised, the caller got {type(got).__name__ if got else 'no exception'}; "
+                         f"state {sm.current_state.id}, log {log}")
+        elif sm.current_state.id != "a" or any(x in log for x in ("enter_b", "enter_c", "exit_a")):
+            fails.append(f"{where} after the exception the state is {sm.current_state.id}, log {log}")
+        if len(fails) >= 3:
+            break
+    return cases, fails
+
+
 def run(ctx):
     ctx.level = "proof"
     lean_obligations(ctx)
@@ -250,6 +329,10 @@ def run(ctx):
     ctx.coverage["orphan_sibling_cases"] = ncases
     if of:
         ctx.violation(ctx.write_replay("orphan_sibling.txt", "\n".join(of[:12]) + "\n"), of[0])
+    ncases, rf = safe_probe(probe_raising_operand, ctx.seed, 150 if ctx.tier == "quick" else 3000, pair=True)
+    ctx.coverage["raising_operand_cases"] = ncases
+    if rf:
+        ctx.violation(ctx.write_replay("raising_operand.txt", "\n".join(rf[:12]) + "\n"), rf[0][:200])
     k = 5 if ctx.tier == "quick" else 40
     engine_check(ctx, PROFILE, 900, 30000, nontrivial, monitor=monitor, tag="C04s", expand=fault_variants(k), share=0.62)
     cov1 = dict(ctx.coverage)
